@@ -24,7 +24,7 @@ REQUIRED = ["batch_entries_compared", "batches/cache_on", "batches/cache_off", "
             "validate_smiles_compared", "validate_records_where_tautomer_flag_matters", "validate_records_where_aromaticity_flag_matters", "balance_compared", "cluster_batches_compared", "syncrn_compared",
             "batches/adversarial_id", "nonempty_entry_results", "batches/explicit_mode", "batches/dedupe_off", "batches/repeated_rule_objects",
             "cluster_batches_with_attribute", "cluster_batches_with_partial_attribute",
-            "cluster_batches_non_default_config", "cluster_batches_numeric_attribute", "syncrn_rule_objects_compared", "batches/rules_as_iterator"]
+            "cluster_batches_non_default_config", "cluster_batches_numeric_attribute", "syncrn_rule_objects_compared", "batches/rules_as_iterator", "cluster_batches_collection_attribute"]
 ASSUMPTIONS = [
     "reference for one entry: SynReactor on smiles_to_graph(entry) for each rule graph in order, flattened, order-preserving de-duplication",
     "the cache-coherence monitor only sees calls made in this process (entry_n_jobs=1); worker processes are covered by the output differential",
@@ -306,6 +306,37 @@ def check_cluster_batches(ctx):
                         break
             except Exception as e:
                 ctx.violation("cluster-depends-on-batch-size", {"node_label_names": cfg_names}, f"configured BatchCluster raises {type(e).__name__}: {e}")
+        # collection-valued pre-grouping attributes: element list in node order (a multiset invariant), and a mixed tuple
+        for aname, vals in (("element list in node order", [[d.get("element") for _, d in g.nodes(data=True)] for g in graphs]),
+                            ("(atom count, ring flag) tuple", [(g.number_of_nodes(), "cyclic" if g.number_of_edges() >= g.number_of_nodes() else None) for g in graphs])):
+            def dat():
+                return [{"gml": g, "a": v} for g, v in zip(graphs, vals)]
+            try:
+                one_l, _ = BatchCluster().fit(dat(), None, rule_key="gml", attribute_key="a", batch_size=None)
+                c_l = [e["class"] for e in one_l]
+            except Exception as e:
+                c_l = f"{type(e).__name__}: {e}"
+            try:
+                got_l, _ = BatchCluster().fit(dat(), None, rule_key="gml", attribute_key="a", batch_size=3)
+                g_l = [e["class"] for e in got_l]
+            except Exception as e:
+                g_l = f"{type(e).__name__}: {e}"
+            ctx.count("cluster_batches_collection_attribute")
+            if isinstance(c_l, str) or isinstance(g_l, str) or not c13.same_partition(g_l, c_l) or not c13.same_partition(c_l, want):
+                ctx.violation("cluster-depends-on-batch-size", {"attribute": aname, "n": len(graphs)},
+                              f"pre-grouping attribute '{aname}': one-shot clustering gives {c_l if isinstance(c_l, str) else len(set(c_l))} classes, "
+                              f"batch_size=3 gives {g_l if isinstance(g_l, str) else len(set(g_l))}, isomorphism classes {len(set(want))}")
+        # back-end name in another case
+        try:
+            o_nx, _ = BatchCluster(backend="NX").fit([{"gml": g} for g in graphs], None, rule_key="gml", attribute_key=None, batch_size=None)
+            b_nx, _ = BatchCluster(backend="NX").fit([{"gml": g} for g in graphs], None, rule_key="gml", attribute_key=None, batch_size=2)
+            ok_nx = c13.same_partition([e["class"] for e in o_nx], want) and c13.same_partition([e["class"] for e in b_nx], want)
+            msg_nx = f"{len(set(e['class'] for e in o_nx))} / {len(set(e['class'] for e in b_nx))} classes (isomorphism classes {len(set(want))})"
+        except Exception as e:
+            ok_nx, msg_nx = False, f"{type(e).__name__}: {e}"
+        ctx.count("cluster_batches_backend_spelling")
+        if not ok_nx:
+            ctx.violation("cluster-depends-on-batch-size", {"backend": "NX"}, f"BatchCluster(backend='NX') one-shot / batched: {msg_nx}")
         sizes = [g.number_of_nodes() for g in graphs]
         try:
             one_n, _ = BatchCluster().fit([{"gml": g, "n": k} for g, k in zip(graphs, sizes)], None, rule_key="gml", attribute_key="n", batch_size=None)
